@@ -244,6 +244,8 @@ def compare_axis(obj, data, ax):
         return None
     if name in ("no", "threshold", "obs", "fcst"):
         return None
+    if name == "timeofday":
+        keys = [k / 3600.0 for k in keys]          # the spec keeps the time of day in seconds; the axis is labelled in hours
     return None if vals == keys else "%s: expected %r observed %r" % (name, keys, vals)
 
 
